@@ -441,11 +441,9 @@ func rangerPools(c *an.Ctx, rule string) {
 			if !isRet || len(ret.Results) != 3 {
 				return true
 			}
-			if id, isId := an.Unparen(ret.Results[0]).(*ast.Ident); isId && id.Name != "nil" {
-				for _, d := range an.LocalDefs(gr, an.ObjOf(ginfo, id)) {
-					if d != nil && strings.Contains(an.Str(d), ".Get()") {
-						ok = true
-					}
+			for _, o := range valueOrigins(gr, ret.Results[0], 0) {
+				if call, isCall := o.(*ast.CallExpr); isCall && an.CalleeName(ginfo, call) == "(*sync.Pool).Get" {
+					ok = true
 				}
 			}
 			return true
@@ -483,6 +481,83 @@ func rangerPools(c *an.Ctx, rule string) {
 			"getRanger can hand out a built-in ranger for a value whose type implements Ranger (the Implements test does not dominate the pool lookup): a custom Ranger over a slice, map or channel type is iterated element-wise instead of through its own Range()")
 	}
 	_ = fmt.Sprint
+}
+
+// valueOrigins traces a value back through local variables, type assertions and the fields of local
+// struct values built by a composite literal (or assigned field by field) to the expressions it was
+// computed by.
+func valueOrigins(f *an.Fn, e ast.Expr, depth int) []ast.Expr {
+	info := f.Info()
+	e = an.Unparen(e)
+	if depth > 6 {
+		return []ast.Expr{e}
+	}
+	switch v := e.(type) {
+	case *ast.TypeAssertExpr:
+		return valueOrigins(f, v.X, depth+1)
+	case *ast.Ident:
+		o, isVar := an.ObjOf(info, v).(*types.Var)
+		if !isVar || o.IsField() || o.Pkg() == nil || o.Parent() == o.Pkg().Scope() {
+			return []ast.Expr{e}
+		}
+		var out []ast.Expr
+		for _, d := range an.LocalDefs(f, o) {
+			if d != nil {
+				out = append(out, valueOrigins(f, d, depth+1)...)
+			}
+		}
+		if len(out) == 0 {
+			return []ast.Expr{e}
+		}
+		return out
+	case *ast.SelectorExpr:
+		fv := an.FieldOf(info, v)
+		base, isId := an.Unparen(v.X).(*ast.Ident)
+		if fv == nil || !isId {
+			return []ast.Expr{e}
+		}
+		bo := an.ObjOf(info, base)
+		var out []ast.Expr
+		for _, d := range an.LocalDefs(f, bo) {
+			if d == nil {
+				continue
+			}
+			d = an.Unparen(d)
+			if u, ok := d.(*ast.UnaryExpr); ok && u.Op == token.AND {
+				d = an.Unparen(u.X)
+			}
+			cl, ok := d.(*ast.CompositeLit)
+			if !ok {
+				continue
+			}
+			st, _ := info.Types[cl].Type.Underlying().(*types.Struct)
+			for i, el := range cl.Elts {
+				if kv, ok := el.(*ast.KeyValueExpr); ok {
+					if k, ok := kv.Key.(*ast.Ident); ok && an.ObjOf(info, k) == types.Object(fv) {
+						out = append(out, valueOrigins(f, kv.Value, depth+1)...)
+					}
+				} else if st != nil && i < st.NumFields() && st.Field(i) == fv {
+					out = append(out, valueOrigins(f, el, depth+1)...)
+				}
+			}
+		}
+		// field-by-field assignment: x.f = v
+		ast.Inspect(f.Root().Body, func(n ast.Node) bool {
+			an.Assigns(n, func(lhs, rhs ast.Expr, _ token.Token) {
+				if sel, ok := an.Unparen(lhs).(*ast.SelectorExpr); ok && rhs != nil && an.FieldOf(info, sel) == fv {
+					if id, ok := an.Unparen(sel.X).(*ast.Ident); ok && an.ObjOf(info, id) == bo {
+						out = append(out, valueOrigins(f, rhs, depth+1)...)
+					}
+				}
+			})
+			return true
+		})
+		if len(out) == 0 {
+			return []ast.Expr{e}
+		}
+		return out
+	}
+	return []ast.Expr{e}
 }
 
 // poolDiscipline: for every (*sync.Pool).Put in package jet, the recycled object is reset — by the
